@@ -55,6 +55,9 @@ type tagTracer struct {
 	// but before the message was finished validating
 	nearFirst map[string]map[peer.ID]struct{}
 
+	// the topics for which each peer currently carries a mesh protection tag
+	meshTags map[peer.ID]map[string]struct{}
+
 	// logger for tag tracer events
 	logger *slog.Logger
 }
@@ -71,6 +74,7 @@ func newTagTracer(cmgr connmgr.ConnManager) *tagTracer {
 		decayer:   decayer,
 		decaying:  make(map[string]connmgr.DecayingTag),
 		nearFirst: make(map[string]map[peer.ID]struct{}),
+		meshTags:  make(map[peer.ID]map[string]struct{}),
 		isDirect:  func(p peer.ID) bool { return false },
 		logger:    logger, // Overridden in Start
 	}
@@ -92,11 +96,42 @@ func (t *tagTracer) Start(gs *GossipSubRouter, logger *slog.Logger) {
 func (t *tagTracer) tagMeshPeer(p peer.ID, topic string) {
 	tag := topicTag(topic)
 	t.cmgr.Protect(p, tag)
+
+	t.Lock()
+	defer t.Unlock()
+	topics, ok := t.meshTags[p]
+	if !ok {
+		topics = make(map[string]struct{})
+		t.meshTags[p] = topics
+	}
+	topics[topic] = struct{}{}
 }
 
 func (t *tagTracer) untagMeshPeer(p peer.ID, topic string) {
 	tag := topicTag(topic)
 	t.cmgr.Unprotect(p, tag)
+
+	t.Lock()
+	defer t.Unlock()
+	if topics, ok := t.meshTags[p]; ok {
+		delete(topics, topic)
+		if len(topics) == 0 {
+			delete(t.meshTags, p)
+		}
+	}
+}
+
+// untagAllMeshTopics removes the mesh protection tags of a peer that left
+// every mesh at once because its stream closed (no PRUNE is traced for that).
+func (t *tagTracer) untagAllMeshTopics(p peer.ID) {
+	t.Lock()
+	topics := t.meshTags[p]
+	delete(t.meshTags, p)
+	t.Unlock()
+
+	for topic := range topics {
+		t.cmgr.Unprotect(p, topicTag(topic))
+	}
 }
 
 func topicTag(topic string) string {
@@ -260,7 +295,10 @@ func (t *tagTracer) RejectMessage(msg *Message, reason string) {
 	}
 }
 
-func (t *tagTracer) OnClosedOutboundStream(peer.ID)    {}
+func (t *tagTracer) OnClosedOutboundStream(p peer.ID) {
+	t.untagAllMeshTopics(p)
+}
+
 func (t *tagTracer) ThrottlePeer(p peer.ID)            {}
 func (t *tagTracer) RecvRPC(rpc *RPC)                  {}
 func (t *tagTracer) SendRPC(rpc *RPC, p peer.ID)       {}
